@@ -759,7 +759,7 @@ func runC12c(sc C12cSc, c *kit.Case) *kit.Violation {
 
 func init() {
 	kit.Register("C12a",
-		"rapid: histories of puts and gets against one node through the wire (genuine token), a bep44.Wrapper over the same store, and Server.Put: immutable items and mutable items under 3 keys, salt length in {0,1,63,64,65,200}, value shapes string/list/dict with encoded length drawn around the 1000-byte limit (996..1004) and from small to 6000 bytes, signature valid / valid for another salt, seq, value or key / bit-flipped / zero; gets for put targets and for unrelated targets. Oracle (independent ed25519 + canonical buffer written from the BEP): accepted <=> valid; a rejected put is answered with an applicable code among 205/206/207 and the recording store saw no Put; a failed Server.Put writes nothing; whatever a get serves re-verifies under the requested target and equals the last accepted version; nothing is served under a target nobody put. Non-trivial: an item within +-2 bytes of a limit or a signature valid for a different field tuple.",
+		"rapid: histories of puts and gets against one node through the wire (genuine token), a bep44.Wrapper over the same store, and Server.Put: immutable items and mutable items under 3 keys, salt length in {0,1,63,64,65,200}, value shapes string/list/dict with encoded length drawn around the 1000-byte limit (996..1004) and from small to 6000 bytes, signature valid / valid for another salt, seq, value or key / bit-flipped / zero; gets for put targets and for unrelated targets; `race` steps in which a get and a valid update of one stored mutable item are injected back to back (the get must be answered with the old or the new version, and it must verify). Oracle (independent ed25519 + canonical buffer written from the BEP): accepted <=> valid; a rejected put is answered with an applicable code among 205/206/207 and the recording store saw no Put; a failed Server.Put writes nothing; whatever a get serves re-verifies under the requested target and equals the last accepted version; nothing is served under a target nobody put. Non-trivial: an item within +-2 bytes of a limit or a signature valid for a different field tuple.",
 		[]string{"mutable puts use a sequence number increasing along the history so that seq/CAS rules (C13) never interfere", "immutable puts carry seq 0", "when several rejection reasons apply any applicable code is accepted"},
 		genC12, runC12a)
 	kit.Register("C12c",
